@@ -166,6 +166,67 @@ example : (exSect "v 1").WF exEnv ∧ (exSect "w").WF exEnv := by
   · intro it h; simp [exSect] at h; subst h; exact exItem_wf₁
   · intro it h; simp [exSect] at h; subst h; exact exItem_wf₂
 
+/-! ### a drop-in that cannot be loaded is never forgotten -/
+
+/-- does this drop-in (name, path) load? -/
+def confLoads (t : Tree) (c : Str × Str) : Bool :=
+  match t.files.lookup c.2 with
+  | none => false
+  | some content => match Parse.parse parseEnv content with
+    | .ok _ => true
+    | .error _ => false
+
+theorem mergeStep_sticky (t : Tree) (cs : List (Str × Str)) (q : QUnit) : (cs.foldl (mergeStep t) (q, true)).2 = true := by
+  induction cs generalizing q with
+  | nil => rfl
+  | cons c cs ih => simp only [List.foldl_cons, mergeStep, if_true]; exact ih q
+
+/-- whatever else is merged before or after it — drop-ins that load, in any number — one drop-in that does not load makes the merge of
+    that unit report a failure (the caller pushes the error and the exit status is 1) -/
+theorem C13_dropin_failure_never_forgotten (t : Tree) (cs : List (Str × Str)) (acc : QUnit × Bool)
+    (h : ∃ c ∈ cs, confLoads t c = false) : (cs.foldl (mergeStep t) acc).2 = true := by
+  induction cs generalizing acc with
+  | nil => obtain ⟨c, hc, _⟩ := h; simp at hc
+  | cons c cs ih =>
+    obtain ⟨a, b⟩ := acc
+    cases b with
+    | true => exact mergeStep_sticky t (c :: cs) a
+    | false =>
+      simp only [List.foldl_cons]
+      by_cases hl : confLoads t c = false
+      · have : mergeStep t (a, false) c = (a, true) := by
+          unfold confLoads at hl
+          unfold mergeStep
+          simp only [Bool.false_eq_true, if_false]
+          split <;> rename_i hx
+          · rfl
+          · split <;> rename_i hy
+            · simp [hx, hy] at hl
+            · rfl
+        rw [this]; exact mergeStep_sticky t cs a
+      · obtain ⟨c', hc', hf⟩ := h
+        apply ih
+        rcases List.mem_cons.mp hc' with e | e
+        · subst e; exact absurd hf hl
+        · exact ⟨c', e, hf⟩
+
+/-- … and when every drop-in loads, no failure is reported -/
+theorem C13_dropins_all_load (t : Tree) (cs : List (Str × Str)) (q : QUnit) (h : ∀ c ∈ cs, confLoads t c = true) :
+    (cs.foldl (mergeStep t) (q, false)).2 = false := by
+  induction cs generalizing q with
+  | nil => rfl
+  | cons c cs ih =>
+    have hc := h c (by simp)
+    simp only [List.foldl_cons]
+    unfold confLoads at hc
+    unfold mergeStep
+    simp only [Bool.false_eq_true, if_false]
+    split <;> rename_i hx
+    · simp [hx] at hc
+    · split <;> rename_i hy
+      · exact ih _ (fun c' hc' => h c' (by simp [hc']))
+      · simp [hx, hy] at hc
+
 /-- the hypotheses are met by a concrete tree: the same name in two search directories, a second name only in the later -/
 example :
     let t : Tree := { searchDirs := [s "/s1", s "/s2"],
